@@ -126,6 +126,16 @@ CLAIMED = {
         "Trusted: vverif/spec_source.py, spec_vyper.py, bytecode denotation, z3. Instance family, not all operand values (the folding kernels of Venom SCCP and of the legacy optimiser are proved for all literal values under C14/C15). keccak256/sha256/uint2str/as_wei_value/method_id not covered.",
         "DESIGN.md 3/C17",
     ),
+    "C19": (
+        "other",
+        "contract-based verification, template route + exhaustive comparison: ABI json vs an independent derivation from the annotated source; method ids vs keccak4; declared mutability vs the behaviour of the real bytecode for all calldata/state (z3); interface text recompiled",
+        "Narrow claim, per template (dispatch shapes with default arguments / dynamic arguments / __default__, public getters incl. nested HashMap and DynArray of structs, structs, tuples, 1-tuples, flags, decimals, events with indexed and dynamic members, lock-protected view functions, constructor): "
+        "the ABI json equals the independent derivation (names, canonical type strings, tuple components, output flattening rule, indexed flags, stateMutability, one entry per default-argument variant); method_identifiers are exactly keccak4 of those signatures; "
+        "for ALL calldata/state no successful path of a view/pure entry performs a state-changing operation, no successful path of a non-payable entry carries value, every listed entry is served; the generated interface text compiles. "
+        "That encoded arguments are accepted and results decode per the declared types is decided against the source types by C05/C06/C07. 'A caller compiled against the interface gets the same results' is not decided.",
+        "Trusted: the ABI-json derivation in vverif/contracts/abi_outputs.py, bytecode denotation, z3. One genuine defect found and repaired (F14: interface output listed __default__).",
+        "DESIGN.md 3/C19",
+    ),
     "C07": (
         "proof",
         "contract-based deductive verification, template route: the real compiler's run-time bytecode for each contract shape and configuration is denoted for all calldata/values and the dispatch contract is discharged by z3; jump-table kernels by bounded run-time contract evaluation",
